@@ -227,10 +227,10 @@ def compile_xmile_model(elems, start, stop, d, scratch):
     return mod, base
 
 
-def build_dsl(elems, start, stop, dt):
+def build_dsl(elems, start, stop, dt, name="c04dsl"):
     from BPTK_Py import Model
     from BPTK_Py import sd_functions as sd
-    m = Model(starttime=float(start), stoptime=float(stop), dt=dt, name="c04dsl")
+    m = Model(starttime=float(start), stoptime=float(stop), dt=dt, name=name)
     obj = {}
     for i, el in enumerate(elems):
         if el[0] == "stock":
@@ -511,7 +511,7 @@ class Case:
         return Case(elems, j["start"], j["stop"], tuple(j["dt"]), j["n"])
 
 
-def evaluate_case(c, scratch, want_dsl=True, want_down=False):
+def evaluate_case(c, scratch, want_dsl=True, want_down=False, bp=None):
     """runs the real code; returns dict(labels, xm, dsl, texts, points_ok, grid_ok, problems)"""
     out = {"problems": []}
     labels = impl_labels(c.start, c.stop, c.dt)
@@ -538,6 +538,29 @@ def evaluate_case(c, scratch, want_dsl=True, want_down=False):
     if want_dsl:
         m = build_dsl(c.elems, c.start, c.stop, c.dt)
         out["dsl"] = run_dsl(m, n, labels)
+    if bp is not None:
+        import contextlib, io
+        _mod_counter[0] += 1
+        tag = f"c04sm{_mod_counter[0]}"
+        names = [nm(i) for i in range(n)]
+
+        def frame_rows(df):
+            idx = [float(x) for x in df.index]
+            keep = [k for k, t in enumerate(idx) if t <= float(c.stop)]
+            cols = {q: (q if q in df.columns else next(cn for cn in df.columns if cn.endswith("_" + q))) for q in names}
+            rows = [[float(df[cols[q]].iloc[k]) for q in names] for k in keep]
+            return rows, [idx[k] for k in keep], len(idx) - len(keep)
+        with contextlib.redirect_stdout(io.StringIO()):
+            bp.register_model(base + ".stmx", scenario_manager=tag)
+            df = bp.run_scenarios(scenario_managers=[tag], scenarios=["base"], equations=names, series_names={}, return_format="df")
+        out["xm_bptk"], out["xm_bptk_index"], out["xm_bptk_extra"] = frame_rows(df)
+        if want_dsl:
+            m2 = build_dsl(c.elems, c.start, c.stop, c.dt, name=tag + "d")
+            with contextlib.redirect_stdout(io.StringIO()):
+                bp.register_model(m2)
+                df2 = bp.run_scenarios(scenario_managers=["sm" + (tag + "d").capitalize()], scenarios=["base"], equations=names,
+                                       series_names={}, return_format="df")
+            out["dsl_bptk"], out["dsl_bptk_index"], out["dsl_bptk_extra"] = frame_rows(df2)
     return out
 
 
@@ -549,7 +572,12 @@ def spec_failure(c, ev):
         return None   # the grid labels themselves are C05's subject; values are compared on the labels the code uses
     ref = ref_euler(c.elems, c.dt, ev["labels"])
     has_gf = any(e[0] == "gf" for e in c.elems)
-    for which in ("xm", "xm_down", "dsl"):
+    for which in ("xm_bptk", "dsl_bptk"):
+        if which in ev and [fbits(t) for t in ev[which + "_index"]] != [fbits(t) for t in ev["labels"]]:
+            return ("grid-rows", f"{which}: run_scenarios returns rows at {ev[which + '_index'][:4]}...{ev[which + '_index'][-2:]} "
+                                 f"({len(ev[which + '_index'])} rows up to stop), grid has {len(ev['labels'])} points "
+                                 f"(dt {dt_name(c.d)}, start {c.start}, stop {c.stop})", {"which": which})
+    for which in ("xm", "xm_down", "dsl", "xm_bptk", "dsl_bptk"):
         if which not in ev:
             continue
         d = first_diff(ev[which], ref)
@@ -557,7 +585,8 @@ def spec_failure(c, ev):
             k, i, got, want = d
             if has_gf and got is not None and math.isclose(got, want, rel_tol=1e-12, abs_tol=1e-12):
                 continue      # scipy's interpolation is opaque: ulp-level differences are not the property
-            key = {"xm": "xmile-not-euler", "xm_down": "xmile-route-dependent", "dsl": "dsl-not-euler"}[which]
+            key = {"xm": "xmile-not-euler", "xm_down": "xmile-route-dependent", "dsl": "dsl-not-euler",
+                   "xm_bptk": "xmile-not-euler", "dsl_bptk": "dsl-not-euler"}[which]
             return (key, f"{which}: element {nm(i)} at t={ev['labels'][k]!r} (grid index {k}, dt {dt_name(c.d)}, start {c.start}) "
                          f"is {got!r}, explicit Euler gives {want!r}", {"which": which, "k": k, "elem": i, "got": got, "want": want})
     return None
@@ -706,6 +735,23 @@ def run(chk):
 
 
 def _run(chk, scratch):
+    import BPTK_Py
+    os.chdir(scratch)
+    if scratch not in sys.path:
+        sys.path.insert(0, scratch)
+    bp = BPTK_Py.bptk()
+    try:
+        _run2(chk, scratch, bp)
+    finally:
+        try:
+            bp.destroy()
+        except Exception:
+            pass
+        if scratch in sys.path:
+            sys.path.remove(scratch)
+
+
+def _run2(chk, scratch, bp):
     skels = probe_skeletons()
     normalises, bad_probe, probe_case = probe_memo_normalises(scratch)
     chk.notes["cfg"] = {"memoNormalises": normalises}
@@ -760,7 +806,7 @@ def _run(chk, scratch):
     corr_fail = None
     results = []
     for ci, c in enumerate(cases):
-        ev = evaluate_case(c, scratch, want_dsl=True, want_down=(ci % 4 == 0))
+        ev = evaluate_case(c, scratch, want_dsl=True, want_down=(ci % 4 == 0), bp=bp)
         results.append(ev)
         dist["dt"][dt_name(c.d)] = dist["dt"].get(dt_name(c.d), 0) + 1
         ns = sum(1 for e in c.elems if e[0] == "stock")
@@ -790,6 +836,7 @@ def _run(chk, scratch):
     chk.cov["traces_validated_against_impl"] = len(cases)
     ngrid_bad = sum(1 for ev in results if not ev["grid_ok"])
     chk.cov["grids_not_exact_reported_under_C05"] = ngrid_bad
+    chk.cov["run_scenarios_rows_beyond_stop_reported_under_C05"] = sum(ev.get("xm_bptk_extra", 0) + ev.get("dsl_bptk_extra", 0) for ev in results)
     n_tol = 0
     for (kind, ci), reply in zip(meta, model):
         c, ev = cases[ci], results[ci]
@@ -806,7 +853,7 @@ def _run(chk, scratch):
             continue
         rows = [[(from_fbits(x) if x != "ERR" else None) for x in r.split(",")] for r in reply.split(";")]
         has_gf = any(e[0] == "gf" for e in c.elems)
-        for which in ("xm", "dsl", "xm_down"):
+        for which in ("xm", "dsl", "xm_down", "xm_bptk", "dsl_bptk"):
             if which not in ev:
                 continue
             a = ev[which]
@@ -835,14 +882,15 @@ def _run(chk, scratch):
         c, (key, text, detail) = first_fail
 
         def fails(cc):
-            e2 = evaluate_case(cc, scratch, want_dsl=(key == "dsl-not-euler"), want_down=(key == "xmile-route-dependent"))
+            e2 = evaluate_case(cc, scratch, want_dsl=(key == "dsl-not-euler"), want_down=(key == "xmile-route-dependent"),
+                               bp=(bp if detail.get("which", "").endswith("_bptk") else None))
             s2 = spec_failure(cc, e2)
             return s2 is not None and s2[0] == key
         try:
             small = shrink_case(c, fails)
         except Exception:
             small = c
-        ev = evaluate_case(small, scratch, want_dsl=True, want_down=True)
+        ev = evaluate_case(small, scratch, want_dsl=True, want_down=True, bp=bp)
         sf = spec_failure(small, ev) or (key, text, detail)
         chk.add_finding(sf[0], sf[1], {"case": small.to_json(), "xmile": xmile_doc(small.elems, small.start, small.stop, small.d),
                                        "detail": sf[2], "dt": dt_name(small.d)})
